@@ -32,8 +32,8 @@ def model_map(sc, calls):
     m = {}
     shapes = []
     for c in calls:
-        if not c.get("completed"):
-            continue
+        if not c.get("completed") or c.get("malformed"):
+            continue          # (an accepted malformed schedule is reported as such; the model has no meaning for it)
         sch = c["schedule"]
         if len(sch) == 0:
             shapes.append((c["t"], 0, 0))
@@ -83,7 +83,7 @@ def check(sc):
     for c in tr.calls:
         if c.get("malformed") and c.get("completed"):
             out.add("C04/malformed_accepted", "%s schedule at t=%d was accepted" % (c["malformed"], c["t"]))
-    if not ok:
+    if not ok or any(t_ == "C04/malformed_accepted" for t_ in out.tags()):
         return out
     sim = tr.sim
     n = sim.iteration
